@@ -19,25 +19,25 @@ import (
 type Z01 struct{ api.APIEntry }
 
 func (z *Z01) Join(c *api.DummyContext, m *MsgA, cb apientry.HandlerCBFunc) {
-	act(101, m == nil, func() int64 { return int64(m.N) }, cbA(cb))
+	act(101, m == nil, func() int64 { return tok(m) }, cbA(cb))
 }
 func (z *Z01) Note(c *api.DummyContext, m *MsgA) {
-	act(102, m == nil, func() int64 { return int64(m.N) }, nil)
+	act(102, m == nil, func() int64 { return tok(m) }, nil)
 }
 func (z *Z01) hidden(c *api.DummyContext, m *MsgA, cb apientry.HandlerCBFunc) {
-	act(103, m == nil, func() int64 { return int64(m.N) }, cbA(cb))
+	act(103, m == nil, func() int64 { return tok(m) }, cbA(cb))
 }
 
 type Z02 struct{ api.APIEntry }
 
 func (z *Z02) Join(c *ZCtx, m *MsgB, cb func(error, interface{})) {
-	act(201, m == nil, func() int64 { return int64(m.N) }, cbF(cb))
+	act(201, m == nil, func() int64 { return tok(m) }, cbF(cb))
 }
 func (z *Z02) Push(c *ZCtx, m *msgs.TestHello, cb apientry.HandlerCBFunc) {
-	act(202, m == nil, func() int64 { return int64(m.I) }, cbA(cb))
+	act(202, m == nil, func() int64 { return tok(m) }, cbA(cb))
 }
 func (z *Z02) Note(c *ZCtx, m *msgs.TestHello) {
-	act(203, m == nil, func() int64 { return int64(m.I) }, nil)
+	act(203, m == nil, func() int64 { return tok(m) }, nil)
 }
 
 type Z03 struct{ api.APIEntry }
@@ -45,93 +45,93 @@ type Z03 struct{ api.APIEntry }
 func (z *Z03) None()                   { act(301, true, func() int64 { return 0 }, nil) }
 func (z *Z03) One(c *api.DummyContext) { act(302, true, func() int64 { return 0 }, nil) }
 func (z *Z03) Five(c *api.DummyContext, m *MsgA, cb apientry.HandlerCBFunc, x int) {
-	act(303, m == nil, func() int64 { return int64(m.N) }, cbA(cb))
+	act(303, m == nil, func() int64 { return tok(m) }, cbA(cb))
 }
 
 type Z04 struct{ api.APIEntry }
 
 func (z *Z04) A1(c api.DummyContext, m *MsgA, cb apientry.HandlerCBFunc) {
-	act(401, m == nil, func() int64 { return int64(m.N) }, cbA(cb))
+	act(401, m == nil, func() int64 { return tok(m) }, cbA(cb))
 }
 func (z *Z04) A2(c VCtx, m *MsgA, cb apientry.HandlerCBFunc) {
-	act(402, m == nil, func() int64 { return int64(m.N) }, cbA(cb))
+	act(402, m == nil, func() int64 { return tok(m) }, cbA(cb))
 }
 func (z *Z04) A3(c api.IContext, m *MsgA, cb apientry.HandlerCBFunc) {
-	act(403, m == nil, func() int64 { return int64(m.N) }, cbA(cb))
+	act(403, m == nil, func() int64 { return tok(m) }, cbA(cb))
 }
 func (z *Z04) A4(c int, m *MsgA, cb apientry.HandlerCBFunc) {
-	act(404, m == nil, func() int64 { return int64(m.N) }, cbA(cb))
+	act(404, m == nil, func() int64 { return tok(m) }, cbA(cb))
 }
 func (z *Z04) Ok(c *api.DummyContext, m *MsgA, cb apientry.HandlerCBFunc) {
-	act(405, m == nil, func() int64 { return int64(m.N) }, cbA(cb))
+	act(405, m == nil, func() int64 { return tok(m) }, cbA(cb))
 }
 
 type Z05 struct{ api.APIEntry }
 
 func (z *Z05) B1(c *NoCtx, m *MsgA, cb apientry.HandlerCBFunc) {
-	act(501, m == nil, func() int64 { return int64(m.N) }, cbA(cb))
+	act(501, m == nil, func() int64 { return tok(m) }, cbA(cb))
 }
-func (z *Z05) B2(c *NoCtx, m *MsgA) { act(502, m == nil, func() int64 { return int64(m.N) }, nil) }
-func (z *Z05) Ok2(c *VCtx, m *MsgA) { act(503, m == nil, func() int64 { return int64(m.N) }, nil) }
+func (z *Z05) B2(c *NoCtx, m *MsgA) { act(502, m == nil, func() int64 { return tok(m) }, nil) }
+func (z *Z05) Ok2(c *VCtx, m *MsgA) { act(503, m == nil, func() int64 { return tok(m) }, nil) }
 
 type Z06 struct{ api.APIEntry }
 
 func (z *Z06) C1(c *api.DummyContext, m MsgA, cb apientry.HandlerCBFunc) {
-	act(601, false, func() int64 { return int64(m.N) }, cbA(cb))
+	act(601, false, func() int64 { return tok(m) }, cbA(cb))
 }
 func (z *Z06) C2(c *api.DummyContext, m int, cb apientry.HandlerCBFunc) {
-	act(602, false, func() int64 { return int64(m) }, cbA(cb))
+	act(602, false, func() int64 { return tok(m) }, cbA(cb))
 }
 func (z *Z06) C3(c *api.DummyContext, m string) {
-	act(603, false, func() int64 { return int64(len(m)) }, nil)
+	act(603, false, func() int64 { return tok(m) }, nil)
 }
 func (z *Z06) C4(c *api.DummyContext, m interface{}, cb apientry.HandlerCBFunc) {
-	act(604, m == nil, func() int64 { return 0 }, cbA(cb))
+	act(604, m == nil, func() int64 { return tok(m) }, cbA(cb))
 }
 func (z *Z06) C5(c *api.DummyContext, m MsgA) {
-	act(605, false, func() int64 { return int64(m.N) }, nil)
+	act(605, false, func() int64 { return tok(m) }, nil)
 }
 func (z *Z06) Ok(c *api.DummyContext, m **MsgA, cb apientry.HandlerCBFunc) {
-	act(606, m == nil, func() int64 { return ppA(m) }, cbA(cb))
+	act(606, m == nil, func() int64 { return tok(m) }, cbA(cb))
 }
 func (z *Z06) Ok2(c *api.DummyContext, m *int, cb func(error, interface{})) {
-	act(607, m == nil, func() int64 { return int64(*m) }, cbF(cb))
+	act(607, m == nil, func() int64 { return tok(m) }, cbF(cb))
 }
 
 type Z07 struct{ api.APIEntry }
 
 func (z *Z07) D1(c *api.DummyContext, m *MsgA, cb int) {
-	act(701, m == nil, func() int64 { return int64(m.N) }, nil)
+	act(701, m == nil, func() int64 { return tok(m) }, nil)
 }
 func (z *Z07) D2(c *api.DummyContext, m *MsgA, cb interface{}) {
-	act(702, m == nil, func() int64 { return int64(m.N) }, nil)
+	act(702, m == nil, func() int64 { return tok(m) }, nil)
 }
 func (z *Z07) D3(c *api.DummyContext, m *MsgA, cb *MsgA) {
-	act(703, m == nil, func() int64 { return int64(m.N) }, nil)
+	act(703, m == nil, func() int64 { return tok(m) }, nil)
 }
 func (z *Z07) D4(c *api.DummyContext, m *MsgA, cb func()) {
-	act(704, m == nil, func() int64 { return int64(m.N) }, nil)
+	act(704, m == nil, func() int64 { return tok(m) }, nil)
 }
 func (z *Z07) D5(c *api.DummyContext, m *MsgA, cb OtherCB) {
-	act(705, m == nil, func() int64 { return int64(m.N) }, nil)
+	act(705, m == nil, func() int64 { return tok(m) }, nil)
 }
 func (z *Z07) D6(c *api.DummyContext, m *MsgA, cb func(error, interface{})) {
-	act(706, m == nil, func() int64 { return int64(m.N) }, cbF(cb))
+	act(706, m == nil, func() int64 { return tok(m) }, cbF(cb))
 }
 
 type Z08 struct{ api.APIEntry }
 
 func (z *Z08) JOIN(c *api.DummyContext, m *MsgA, cb apientry.HandlerCBFunc) {
-	act(801, m == nil, func() int64 { return int64(m.N) }, cbA(cb))
+	act(801, m == nil, func() int64 { return tok(m) }, cbA(cb))
 }
 func (z *Z08) Join(c *api.DummyContext, m *MsgB, cb apientry.HandlerCBFunc) {
-	act(802, m == nil, func() int64 { return int64(m.N) }, cbA(cb))
+	act(802, m == nil, func() int64 { return tok(m) }, cbA(cb))
 }
 func (z *Z08) JoIn(c *api.DummyContext, m *MsgA) {
-	act(803, m == nil, func() int64 { return int64(m.N) }, nil)
+	act(803, m == nil, func() int64 { return tok(m) }, nil)
 }
 func (z *Z08) join(c *api.DummyContext, m *MsgA, cb apientry.HandlerCBFunc) {
-	act(804, m == nil, func() int64 { return int64(m.N) }, cbA(cb))
+	act(804, m == nil, func() int64 { return tok(m) }, cbA(cb))
 }
 
 type Z09 struct{}
@@ -139,248 +139,248 @@ type Z09 struct{}
 func (Z09) Desc() string { return "Z09" }
 
 func (z Z09) Val(c *api.DummyContext, m *MsgA, cb apientry.HandlerCBFunc) {
-	act(901, m == nil, func() int64 { return int64(m.N) }, cbA(cb))
+	act(901, m == nil, func() int64 { return tok(m) }, cbA(cb))
 }
 func (z *Z09) Ptr(c *api.DummyContext, m *MsgA, cb apientry.HandlerCBFunc) {
-	act(902, m == nil, func() int64 { return int64(m.N) }, cbA(cb))
+	act(902, m == nil, func() int64 { return tok(m) }, cbA(cb))
 }
 func (z Z09) ValNote(c *api.DummyContext, m *MsgB) {
-	act(903, m == nil, func() int64 { return int64(m.N) }, nil)
+	act(903, m == nil, func() int64 { return tok(m) }, nil)
 }
 
 type zlow struct{ api.APIEntry }
 
 func (z *zlow) Join(c *api.DummyContext, m *MsgA, cb apientry.HandlerCBFunc) {
-	act(1001, m == nil, func() int64 { return int64(m.N) }, cbA(cb))
+	act(1001, m == nil, func() int64 { return tok(m) }, cbA(cb))
 }
 func (z *zlow) Note(c *api.DummyContext, m *MsgA) {
-	act(1002, m == nil, func() int64 { return int64(m.N) }, nil)
+	act(1002, m == nil, func() int64 { return tok(m) }, nil)
 }
 
 type Z12 struct{ api.APIEntry }
 
 func (z *Z12) N1(c *api.DummyContext, m *MsgA) {
-	act(1101, m == nil, func() int64 { return int64(m.N) }, nil)
+	act(1101, m == nil, func() int64 { return tok(m) }, nil)
 }
-func (z *Z12) N2(c *ZCtx, m *MsgB) { act(1102, m == nil, func() int64 { return int64(m.N) }, nil) }
+func (z *Z12) N2(c *ZCtx, m *MsgB) { act(1102, m == nil, func() int64 { return tok(m) }, nil) }
 
 type Z13 struct{ api.APIEntry }
 
 func (z *Z13) P1(c *api.DummyContext, m *msgs.TestHello, cb apientry.HandlerCBFunc) {
-	act(1201, m == nil, func() int64 { return int64(m.I) }, cbA(cb))
+	act(1201, m == nil, func() int64 { return tok(m) }, cbA(cb))
 }
 func (z *Z13) P2(c *api.DummyContext, m *msgs.TestHello) {
-	act(1202, m == nil, func() int64 { return int64(m.I) }, nil)
+	act(1202, m == nil, func() int64 { return tok(m) }, nil)
 }
 func (z *Z13) J1(c *api.DummyContext, m *MsgA, cb apientry.HandlerCBFunc) {
-	act(1203, m == nil, func() int64 { return int64(m.N) }, cbA(cb))
+	act(1203, m == nil, func() int64 { return tok(m) }, cbA(cb))
 }
 
 type Z14 struct{ api.APIEntry }
 
 func (z *Z14) E1(c *api.DummyContext, m *MsgA, cb apientry.HandlerCBFunc, x apientry.HandlerCBFunc) {
-	act(1301, m == nil, func() int64 { return int64(m.N) }, cbA(cb))
+	act(1301, m == nil, func() int64 { return tok(m) }, cbA(cb))
 }
 func (z *Z14) E2(c *api.DummyContext, m *MsgA, cb ...apientry.HandlerCBFunc) {
-	act(1302, m == nil, func() int64 { return int64(m.N) }, nil)
+	act(1302, m == nil, func() int64 { return tok(m) }, nil)
 }
 func (z *Z14) E3(c *api.DummyContext, m *MsgA, cb apientry.HandlerCBFunc) {
-	act(1303, m == nil, func() int64 { return int64(m.N) }, cbA(cb))
+	act(1303, m == nil, func() int64 { return tok(m) }, cbA(cb))
 }
 
 type Z15 struct{ api.APIEntry }
 
 func (z *Z15) R1(c *api.DummyContext, m *MsgA, cb apientry.HandlerCBFunc) error {
-	act(1401, m == nil, func() int64 { return int64(m.N) }, cbA(cb))
+	act(1401, m == nil, func() int64 { return tok(m) }, cbA(cb))
 	return nil
 }
 func (z *Z15) R2(c *api.DummyContext, m *MsgA) int {
-	act(1402, m == nil, func() int64 { return int64(m.N) }, nil)
+	act(1402, m == nil, func() int64 { return tok(m) }, nil)
 	return 0
 }
 
 type Z16 struct{ api.APIEntry }
 
 func (z *Z16) X_1(c *VCtx, m *MsgB, cb func(error, interface{})) {
-	act(1501, m == nil, func() int64 { return int64(m.N) }, cbF(cb))
+	act(1501, m == nil, func() int64 { return tok(m) }, cbF(cb))
 }
-func (z *Z16) Y2z(c *VCtx, m *MsgB)    { act(1502, m == nil, func() int64 { return int64(m.N) }, nil) }
-func (z *Z16) notexp(c *VCtx, m *MsgB) { act(1503, m == nil, func() int64 { return int64(m.N) }, nil) }
+func (z *Z16) Y2z(c *VCtx, m *MsgB)    { act(1502, m == nil, func() int64 { return tok(m) }, nil) }
+func (z *Z16) notexp(c *VCtx, m *MsgB) { act(1503, m == nil, func() int64 { return tok(m) }, nil) }
 
 type Z17 struct{}
 
 func (Z17) Desc() string { return "Z17" }
 
 func (z *Z17) OnlyPtr(c *api.DummyContext, m *MsgA, cb apientry.HandlerCBFunc) {
-	act(1601, m == nil, func() int64 { return int64(m.N) }, cbA(cb))
+	act(1601, m == nil, func() int64 { return tok(m) }, cbA(cb))
 }
 
 type Z18 struct{ api.APIEntry }
 
 func (z *Z18) hid1(c *api.DummyContext, m *MsgA, cb apientry.HandlerCBFunc) {
-	act(1701, m == nil, func() int64 { return int64(m.N) }, cbA(cb))
+	act(1701, m == nil, func() int64 { return tok(m) }, cbA(cb))
 }
 func (z *Z18) hid2(c *api.DummyContext, m *MsgA) {
-	act(1702, m == nil, func() int64 { return int64(m.N) }, nil)
+	act(1702, m == nil, func() int64 { return tok(m) }, nil)
 }
 
 type Z19 struct{ api.APIEntry }
 
 func (z *Z19) Aa(c *api.DummyContext, m *MsgA, cb apientry.HandlerCBFunc) {
-	act(1801, m == nil, func() int64 { return int64(m.N) }, cbA(cb))
+	act(1801, m == nil, func() int64 { return tok(m) }, cbA(cb))
 }
 func (z *Z19) AA(c *api.DummyContext, m *MsgB) {
-	act(1802, m == nil, func() int64 { return int64(m.N) }, nil)
+	act(1802, m == nil, func() int64 { return tok(m) }, nil)
 }
 func (z *Z19) aA(c *api.DummyContext, m *MsgA) {
-	act(1803, m == nil, func() int64 { return int64(m.N) }, nil)
+	act(1803, m == nil, func() int64 { return tok(m) }, nil)
 }
 func (z *Z19) Ab(c *ZCtx, m *msgs.TestHello, cb apientry.HandlerCBFunc) {
-	act(1804, m == nil, func() int64 { return int64(m.I) }, cbA(cb))
+	act(1804, m == nil, func() int64 { return tok(m) }, cbA(cb))
 }
 
 type Gpi struct{ api.APIEntry }
 
 func (z *Gpi) MPNone(c *api.DummyContext, m *MsgA) {
-	act(1901, m == nil, func() int64 { return int64(m.N) }, nil)
+	act(1901, m == nil, func() int64 { return tok(m) }, nil)
 }
 func (z *Gpi) MPFit(c *api.DummyContext, m *MsgA, cb apientry.HandlerCBFunc) {
-	act(1902, m == nil, func() int64 { return int64(m.N) }, cbA(cb))
+	act(1902, m == nil, func() int64 { return tok(m) }, cbA(cb))
 }
 func (z *Gpi) MPUnfit(c *api.DummyContext, m *MsgA, cb func()) {
-	act(1903, m == nil, func() int64 { return int64(m.N) }, nil)
+	act(1903, m == nil, func() int64 { return tok(m) }, nil)
 }
 func (z *Gpi) MPNonf(c *api.DummyContext, m *MsgA, cb int) {
-	act(1904, m == nil, func() int64 { return int64(m.N) }, nil)
+	act(1904, m == nil, func() int64 { return tok(m) }, nil)
 }
 func (z *Gpi) MVNone(c *api.DummyContext, m MsgA) {
-	act(1905, false, func() int64 { return int64(m.N) }, nil)
+	act(1905, false, func() int64 { return tok(m) }, nil)
 }
 func (z *Gpi) MVFit(c *api.DummyContext, m MsgA, cb apientry.HandlerCBFunc) {
-	act(1906, false, func() int64 { return int64(m.N) }, cbA(cb))
+	act(1906, false, func() int64 { return tok(m) }, cbA(cb))
 }
 func (z *Gpi) MVUnfit(c *api.DummyContext, m MsgA, cb func()) {
-	act(1907, false, func() int64 { return int64(m.N) }, nil)
+	act(1907, false, func() int64 { return tok(m) }, nil)
 }
 func (z *Gpi) MVNonf(c *api.DummyContext, m MsgA, cb int) {
-	act(1908, false, func() int64 { return int64(m.N) }, nil)
+	act(1908, false, func() int64 { return tok(m) }, nil)
 }
 
 type Gpn struct{ api.APIEntry }
 
-func (z *Gpn) MPNone(c *NoCtx, m *MsgA) { act(2001, m == nil, func() int64 { return int64(m.N) }, nil) }
+func (z *Gpn) MPNone(c *NoCtx, m *MsgA) { act(2001, m == nil, func() int64 { return tok(m) }, nil) }
 func (z *Gpn) MPFit(c *NoCtx, m *MsgA, cb apientry.HandlerCBFunc) {
-	act(2002, m == nil, func() int64 { return int64(m.N) }, cbA(cb))
+	act(2002, m == nil, func() int64 { return tok(m) }, cbA(cb))
 }
 func (z *Gpn) MPUnfit(c *NoCtx, m *MsgA, cb func()) {
-	act(2003, m == nil, func() int64 { return int64(m.N) }, nil)
+	act(2003, m == nil, func() int64 { return tok(m) }, nil)
 }
 func (z *Gpn) MPNonf(c *NoCtx, m *MsgA, cb int) {
-	act(2004, m == nil, func() int64 { return int64(m.N) }, nil)
+	act(2004, m == nil, func() int64 { return tok(m) }, nil)
 }
-func (z *Gpn) MVNone(c *NoCtx, m MsgA) { act(2005, false, func() int64 { return int64(m.N) }, nil) }
+func (z *Gpn) MVNone(c *NoCtx, m MsgA) { act(2005, false, func() int64 { return tok(m) }, nil) }
 func (z *Gpn) MVFit(c *NoCtx, m MsgA, cb apientry.HandlerCBFunc) {
-	act(2006, false, func() int64 { return int64(m.N) }, cbA(cb))
+	act(2006, false, func() int64 { return tok(m) }, cbA(cb))
 }
 func (z *Gpn) MVUnfit(c *NoCtx, m MsgA, cb func()) {
-	act(2007, false, func() int64 { return int64(m.N) }, nil)
+	act(2007, false, func() int64 { return tok(m) }, nil)
 }
 func (z *Gpn) MVNonf(c *NoCtx, m MsgA, cb int) {
-	act(2008, false, func() int64 { return int64(m.N) }, nil)
+	act(2008, false, func() int64 { return tok(m) }, nil)
 }
 
 type Gvi struct{ api.APIEntry }
 
-func (z *Gvi) MPNone(c VCtx, m *MsgA) { act(2101, m == nil, func() int64 { return int64(m.N) }, nil) }
+func (z *Gvi) MPNone(c VCtx, m *MsgA) { act(2101, m == nil, func() int64 { return tok(m) }, nil) }
 func (z *Gvi) MPFit(c VCtx, m *MsgA, cb apientry.HandlerCBFunc) {
-	act(2102, m == nil, func() int64 { return int64(m.N) }, cbA(cb))
+	act(2102, m == nil, func() int64 { return tok(m) }, cbA(cb))
 }
 func (z *Gvi) MPUnfit(c VCtx, m *MsgA, cb func()) {
-	act(2103, m == nil, func() int64 { return int64(m.N) }, nil)
+	act(2103, m == nil, func() int64 { return tok(m) }, nil)
 }
 func (z *Gvi) MPNonf(c VCtx, m *MsgA, cb int) {
-	act(2104, m == nil, func() int64 { return int64(m.N) }, nil)
+	act(2104, m == nil, func() int64 { return tok(m) }, nil)
 }
-func (z *Gvi) MVNone(c VCtx, m MsgA) { act(2105, false, func() int64 { return int64(m.N) }, nil) }
+func (z *Gvi) MVNone(c VCtx, m MsgA) { act(2105, false, func() int64 { return tok(m) }, nil) }
 func (z *Gvi) MVFit(c VCtx, m MsgA, cb apientry.HandlerCBFunc) {
-	act(2106, false, func() int64 { return int64(m.N) }, cbA(cb))
+	act(2106, false, func() int64 { return tok(m) }, cbA(cb))
 }
 func (z *Gvi) MVUnfit(c VCtx, m MsgA, cb func()) {
-	act(2107, false, func() int64 { return int64(m.N) }, nil)
+	act(2107, false, func() int64 { return tok(m) }, nil)
 }
 func (z *Gvi) MVNonf(c VCtx, m MsgA, cb int) {
-	act(2108, false, func() int64 { return int64(m.N) }, nil)
+	act(2108, false, func() int64 { return tok(m) }, nil)
 }
 
 type Gvn struct{ api.APIEntry }
 
 func (z *Gvn) MPNone(c api.DummyContext, m *MsgA) {
-	act(2201, m == nil, func() int64 { return int64(m.N) }, nil)
+	act(2201, m == nil, func() int64 { return tok(m) }, nil)
 }
 func (z *Gvn) MPFit(c api.DummyContext, m *MsgA, cb apientry.HandlerCBFunc) {
-	act(2202, m == nil, func() int64 { return int64(m.N) }, cbA(cb))
+	act(2202, m == nil, func() int64 { return tok(m) }, cbA(cb))
 }
 func (z *Gvn) MPUnfit(c api.DummyContext, m *MsgA, cb func()) {
-	act(2203, m == nil, func() int64 { return int64(m.N) }, nil)
+	act(2203, m == nil, func() int64 { return tok(m) }, nil)
 }
 func (z *Gvn) MPNonf(c api.DummyContext, m *MsgA, cb int) {
-	act(2204, m == nil, func() int64 { return int64(m.N) }, nil)
+	act(2204, m == nil, func() int64 { return tok(m) }, nil)
 }
 func (z *Gvn) MVNone(c api.DummyContext, m MsgA) {
-	act(2205, false, func() int64 { return int64(m.N) }, nil)
+	act(2205, false, func() int64 { return tok(m) }, nil)
 }
 func (z *Gvn) MVFit(c api.DummyContext, m MsgA, cb apientry.HandlerCBFunc) {
-	act(2206, false, func() int64 { return int64(m.N) }, cbA(cb))
+	act(2206, false, func() int64 { return tok(m) }, cbA(cb))
 }
 func (z *Gvn) MVUnfit(c api.DummyContext, m MsgA, cb func()) {
-	act(2207, false, func() int64 { return int64(m.N) }, nil)
+	act(2207, false, func() int64 { return tok(m) }, nil)
 }
 func (z *Gvn) MVNonf(c api.DummyContext, m MsgA, cb int) {
-	act(2208, false, func() int64 { return int64(m.N) }, nil)
+	act(2208, false, func() int64 { return tok(m) }, nil)
 }
 
 type Z20 struct{ api.APIEntry }
 
 func (z *Z20) Join(c *VCtx, m *msgs.TestHello, cb apientry.HandlerCBFunc) {
-	act(2301, m == nil, func() int64 { return int64(m.I) }, cbA(cb))
+	act(2301, m == nil, func() int64 { return tok(m) }, cbA(cb))
 }
 func (z *Z20) join(c *VCtx, m *msgs.TestHello, cb apientry.HandlerCBFunc) {
-	act(2302, m == nil, func() int64 { return int64(m.I) }, cbA(cb))
+	act(2302, m == nil, func() int64 { return tok(m) }, cbA(cb))
 }
 func (z *Z20) JoinUs(c *VCtx, m *msgs.TestHello) {
-	act(2303, m == nil, func() int64 { return int64(m.I) }, nil)
+	act(2303, m == nil, func() int64 { return tok(m) }, nil)
 }
 func (z *Z20) Join2(c *ZCtx, m *MsgB, cb func(error, interface{})) error {
-	act(2304, m == nil, func() int64 { return int64(m.N) }, cbF(cb))
+	act(2304, m == nil, func() int64 { return tok(m) }, cbF(cb))
 	return nil
 }
 
 type Z21 struct{ api.APIEntry }
 
 func (z *Z21) U1(c *api.DummyContext, m *MsgB, cb func()) {
-	act(2401, m == nil, func() int64 { return int64(m.N) }, nil)
+	act(2401, m == nil, func() int64 { return tok(m) }, nil)
 }
 func (z *Z21) U2(c *api.DummyContext, m *MsgB, cb OtherCB) {
-	act(2402, m == nil, func() int64 { return int64(m.N) }, nil)
+	act(2402, m == nil, func() int64 { return tok(m) }, nil)
 }
 func (z *Z21) U3(c *api.DummyContext, m *MsgB, cb interface{}) {
-	act(2403, m == nil, func() int64 { return int64(m.N) }, nil)
+	act(2403, m == nil, func() int64 { return tok(m) }, nil)
 }
 func (z *Z21) N1(c *api.DummyContext, m *MsgB) {
-	act(2404, m == nil, func() int64 { return int64(m.N) }, nil)
+	act(2404, m == nil, func() int64 { return tok(m) }, nil)
 }
 func (z *Z21) N2(c *api.DummyContext, m *int) {
-	act(2405, m == nil, func() int64 { return int64(*m) }, nil)
+	act(2405, m == nil, func() int64 { return tok(m) }, nil)
 }
 
 type Z22 struct{ api.APIEntry }
 
 func (z *Z22) Two(c *api.DummyContext, m *MsgA, cb apientry.HandlerCBFunc) (int, error) {
-	act(2501, m == nil, func() int64 { return int64(m.N) }, cbA(cb))
+	act(2501, m == nil, func() int64 { return tok(m) }, cbA(cb))
 	return 0, nil
 }
 func (z *Z22) Six(c *api.DummyContext, m *MsgA, cb apientry.HandlerCBFunc, x int, y string) {
-	act(2502, m == nil, func() int64 { return int64(m.N) }, cbA(cb))
+	act(2502, m == nil, func() int64 { return tok(m) }, cbA(cb))
 }
 func (z *Z22) CtxOnly(c *ZCtx) { act(2503, true, func() int64 { return 0 }, nil) }
 
@@ -388,13 +388,13 @@ type Z23 struct{ *api.BaseAPIEntry }
 
 func (z *Z23) Func1() { act(2601, true, func() int64 { return 0 }, nil) }
 func (z *Z23) Func2(c *api.DummyContext, m *MsgA, cb func(error, interface{})) {
-	act(2602, m == nil, func() int64 { return int64(m.N) }, cbF(cb))
+	act(2602, m == nil, func() int64 { return tok(m) }, cbF(cb))
 }
 func (z *Z23) Func3(c *api.DummyContext, m MsgA, cb func()) {
-	act(2603, false, func() int64 { return int64(m.N) }, nil)
+	act(2603, false, func() int64 { return tok(m) }, nil)
 }
 func (z *Z23) NotifyFunc2(c *api.DummyContext, m *MsgA) {
-	act(2604, m == nil, func() int64 { return int64(m.N) }, nil)
+	act(2604, m == nil, func() int64 { return tok(m) }, nil)
 }
 
 type Z24 struct{}
@@ -402,52 +402,52 @@ type Z24 struct{}
 func (Z24) Desc() string { return "Z24" }
 
 func (z Z24) V1(c *ZCtx, m *MsgB, cb apientry.HandlerCBFunc) {
-	act(2701, m == nil, func() int64 { return int64(m.N) }, cbA(cb))
+	act(2701, m == nil, func() int64 { return tok(m) }, cbA(cb))
 }
-func (z Z24) V2(c *ZCtx, m *MsgB) { act(2702, m == nil, func() int64 { return int64(m.N) }, nil) }
+func (z Z24) V2(c *ZCtx, m *MsgB) { act(2702, m == nil, func() int64 { return tok(m) }, nil) }
 func (z *Z24) P1(c *ZCtx, m *msgs.TestHello, cb func(error, interface{})) {
-	act(2703, m == nil, func() int64 { return int64(m.I) }, cbF(cb))
+	act(2703, m == nil, func() int64 { return tok(m) }, cbF(cb))
 }
-func (z Z24) v3(c *ZCtx, m *MsgB) { act(2704, m == nil, func() int64 { return int64(m.N) }, nil) }
+func (z Z24) v3(c *ZCtx, m *MsgB) { act(2704, m == nil, func() int64 { return tok(m) }, nil) }
 
 type Z25 struct{ api.APIEntry }
 
 func (z *Z25) Zz(c api.IContext, m *MsgA, cb apientry.HandlerCBFunc) {
-	act(2801, m == nil, func() int64 { return int64(m.N) }, cbA(cb))
+	act(2801, m == nil, func() int64 { return tok(m) }, cbA(cb))
 }
 func (z *Z25) Zy(c api.IContext, m *MsgA) {
-	act(2802, m == nil, func() int64 { return int64(m.N) }, nil)
+	act(2802, m == nil, func() int64 { return tok(m) }, nil)
 }
 func (z *Z25) Zx(c VCtx, m **MsgA, cb func(error, interface{})) {
-	act(2803, m == nil, func() int64 { return ppA(m) }, cbF(cb))
+	act(2803, m == nil, func() int64 { return tok(m) }, cbF(cb))
 }
 func (z *Z25) Zw(c api.DummyContext, m *int) {
-	act(2804, m == nil, func() int64 { return int64(*m) }, nil)
+	act(2804, m == nil, func() int64 { return tok(m) }, nil)
 }
 
 type lowerOnly struct{ api.APIEntry }
 
 func (z *lowerOnly) Note(c *api.DummyContext, m *MsgA) {
-	act(2901, m == nil, func() int64 { return int64(m.N) }, nil)
+	act(2901, m == nil, func() int64 { return tok(m) }, nil)
 }
 
 type Z27 struct{ api.APIEntry }
 
 func (z *Z27) A(c *api.DummyContext, m *MsgA, cb apientry.HandlerCBFunc) {
-	act(3001, m == nil, func() int64 { return int64(m.N) }, cbA(cb))
+	act(3001, m == nil, func() int64 { return tok(m) }, cbA(cb))
 }
 func (z *Z27) B(c *api.DummyContext, m *MsgA) {
-	act(3002, m == nil, func() int64 { return int64(m.N) }, nil)
+	act(3002, m == nil, func() int64 { return tok(m) }, nil)
 }
 func (z *Z27) C(c *ZCtx, m *MsgB, cb apientry.HandlerCBFunc) {
-	act(3003, m == nil, func() int64 { return int64(m.N) }, cbA(cb))
+	act(3003, m == nil, func() int64 { return tok(m) }, cbA(cb))
 }
-func (z *Z27) D(c *ZCtx, m *MsgB) { act(3004, m == nil, func() int64 { return int64(m.N) }, nil) }
+func (z *Z27) D(c *ZCtx, m *MsgB) { act(3004, m == nil, func() int64 { return tok(m) }, nil) }
 func (z *Z27) E(c *VCtx, m *msgs.TestHello, cb func(error, interface{})) {
-	act(3005, m == nil, func() int64 { return int64(m.I) }, cbF(cb))
+	act(3005, m == nil, func() int64 { return tok(m) }, cbF(cb))
 }
 func (z *Z27) F(c *VCtx, m *msgs.TestHello) {
-	act(3006, m == nil, func() int64 { return int64(m.I) }, nil)
+	act(3006, m == nil, func() int64 { return tok(m) }, nil)
 }
 
 // uid of every zoo method, keyed by "GoTypeName.Method"
